@@ -30,6 +30,38 @@ Definition under_key (s : string) (vs : list value) : list value :=
   flat_map (fun v => match lookup_str s (dict_items v) with Some x => [x] | None => [] end) vs.
 Definition has_skey (s : string) (v : value) : bool := has_key s (dict_items v).
 
+(* memt v t: v is exactly an instance of t's shape in the tight reading: exact runtime classes, Any admits
+   nothing, and (unlike `member`) Dict does NOT admit a defaultdict — get_type gives a defaultdict its own
+   DefaultDict alternative, so that is the alternative it witnesses. *)
+Fixpoint memt (v : value) (t : ty) {struct t} : bool :=
+  match t with
+  | TAny => false
+  | TCls c => N.eqb (class_of v) c
+  | TType t' => match v with VClassObj c => match t' with TCls c0 => N.eqb c c0 | _ => false end | _ => false end
+  | TCallable => match v with VCallable => true | _ => false end
+  | TList t' => match v with VList es => forallb (fun e => memt e t') es | _ => false end
+  | TSet t' => match v with VSet es => forallb (fun e => memt e t') es | _ => false end
+  | TIterator _ | TGenerator _ _ _ => match v with VGen => true | _ => false end
+  | TDict k vt => match v with
+                 | VDict kvs => forallb (fun kv => memt (fst kv) k && memt (snd kv) vt) kvs
+                 | _ => false end
+  | TDefaultDict k vt => match v with
+                 | VDefaultDict kvs => forallb (fun kv => memt (fst kv) k && memt (snd kv) vt) kvs
+                 | _ => false end
+  | TTuple ts => match v with
+                 | VTuple es => (fix go (ts : list ty) (es : list value) : bool :=
+                                   match ts, es with
+                                   | [], [] => true
+                                   | t1 :: ts', e :: es' => memt e t1 && go ts' es'
+                                   | _, _ => false end) ts es
+                 | _ => false end
+  | TTupleVar t' => match v with VTuple es => forallb (fun e => memt e t') es | _ => false end
+  | TUnion ts => (fix ex (ts : list ty) : bool :=
+                    match ts with [] => false | t1 :: r => memt v t1 || ex r end) ts
+  | TTypedDict _ _ => member false subN v t
+  | TFwd _ => false
+  end.
+
 Fixpoint tightb (t : ty) (vs : list value) {struct t} : bool :=
   match t with
   | TAny => negb (nonempty vs)                  (* Any only where nothing was seen *)
@@ -56,9 +88,9 @@ Fixpoint tightb (t : ty) (vs : list value) {struct t} : bool :=
             end) ts (map tuple_elems vs)
   | TUnion ts =>
       Nat.leb 2 (List.length ts)
-      && forallb (fun v => existsb (fun ti => memx v ti) ts) vs
-      && forallb (fun ti => nonempty (filter (fun v => memx v ti) vs)
-                            && tightb ti (filter (fun v => memx v ti) vs)) ts
+      && forallb (fun v => existsb (fun ti => memt v ti) ts) vs
+      && forallb (fun ti => nonempty (filter (fun v => memt v ti) vs)
+                            && tightb ti (filter (fun v => memt v ti) vs)) ts
   | TTypedDict req opt =>
       nonempty vs && forallb str_keyed vs
       && forallb (fun v => forallb (fun kv => match fst kv with
